@@ -19,6 +19,11 @@ Judge(r) ==
          LET t == Tx(r.tx) IN
          [v |-> IF WellFormedTx(t) /\ Canonical144(t) THEN "ok" ELSE "not-well-formed", dev |-> "",
           full |-> SerTx(t, TRUE), stripped |-> SerTx(t, FALSE), devfull |-> SerTxDev(t, TRUE), devstripped |-> SerTxDev(t, FALSE)]
+    [] r.k = "sizes" ->       \* r.raw: serialized transaction; sizes as BIP141 defines them, from the spec's own parse
+         LET p == ParseTx(r.raw) IN
+         IF ~p.ok THEN [v |-> "raw-not-parsable", dev |-> "", full |-> <<>>, stripped |-> <<>>, devfull |-> <<>>, devstripped |-> <<>>]
+         ELSE [v |-> "ok", dev |-> "", full |-> <<Size(p.tx), StrippedSize(p.tx), Weight(p.tx), VSize(p.tx)>>, stripped |-> <<>>,
+               devfull |-> <<>>, devstripped |-> <<>>]
     [] r.k = "judge" ->
          LET t == Tx(r.tx)
              p == ParseTx(r.raw)
